@@ -20,3 +20,6 @@ Definition istep (files : afs) (tmp_ok : bool) (prog : str) (cw : iconf * Z) (o 
 
 Definition ifind (flen : Z) (dlen : option Z) (comps : list (Z * bool)) : res (option ff_out) :=
   find_file flen dlen comps (fun _ => false).
+
+Definition irun (files : afs) (tmp_ok : bool) (prog : list byte) (ops : list op) : res (iconf * Z * list opres) :=
+  run Z vstore [] fresh_handler expand_simple (ipreproc tmp_ok) (afs_lookup files) prog (iconf0, 0) ops.
